@@ -23,11 +23,11 @@ func mkSchema() *graphql.Schema {
 	}
 	obj := &graphql.ObjectType{Name: "Obj"}
 	args := map[string]*graphql.InputValueDefinition{
-		"x": {Type: graphql.IntType},
-		"y": {Type: graphql.IntType},
-		"s": {Type: graphql.StringType},
-		"l": {Type: graphql.NewListType(graphql.IntType)},
-		"in": {Type: in},
+		"x":    {Type: graphql.IntType},
+		"y":    {Type: graphql.IntType},
+		"s":    {Type: graphql.StringType},
+		"l":    {Type: graphql.NewListType(graphql.IntType)},
+		"in":   {Type: in},
 		"deep": {Type: deepList(graphql.IntType, 1100)},
 	}
 	obj.Fields = map[string]*graphql.FieldDefinition{
@@ -96,19 +96,27 @@ func chain(n int, root string, body func(i int) string, last string) string {
 var families = []family{
 	{name: "merge-overlap-chain", about: "F-12b: overlapping field through a fragment chain, o{...Fi+1} o{...Fi+1}",
 		gen: func(n int) string {
-			return chain(n, "{ obj { ...F1 } }", func(i int) string { return fmt.Sprintf("fragment F%d on Obj { o { ...F%d } o { ...F%d } }", i, i+1, i+1) }, "{ x }")
+			return chain(n, "{ obj { ...F1 } }", func(i int) string {
+				return fmt.Sprintf("fragment F%d on Obj { o { ...F%d } o { ...F%d } }", i, i+1, i+1)
+			}, "{ x }")
 		}, quick: []int{5, 10, 20, 40, 80}, thorough: []int{5, 10, 20, 40, 80, 160, 320}},
 	{name: "merge-alias-overlap-chain", about: "same response key from differently named wrappers: k: o{...} k: obj{...}",
 		gen: func(n int) string {
-			return chain(n, "{ obj { ...F1 } }", func(i int) string { return fmt.Sprintf("fragment F%d on Obj { k: o { ...F%d } k: o { ...F%d } k: o { x } }", i, i+1, i+1) }, "{ x y }")
+			return chain(n, "{ obj { ...F1 } }", func(i int) string {
+				return fmt.Sprintf("fragment F%d on Obj { k: o { ...F%d } k: o { ...F%d } k: o { x } }", i, i+1, i+1)
+			}, "{ x y }")
 		}, quick: []int{5, 10, 20, 40, 80}, thorough: []int{5, 10, 20, 40, 80, 160}},
 	{name: "merge-distinct-keys-chain", about: "distinct response keys over the same fragment: a: o{...Fi+1} b: o{...Fi+1}",
 		gen: func(n int) string {
-			return chain(n, "{ obj { ...F1 } }", func(i int) string { return fmt.Sprintf("fragment F%d on Obj { a: o { ...F%d } b: o { ...F%d } }", i, i+1, i+1) }, "{ x }")
+			return chain(n, "{ obj { ...F1 } }", func(i int) string {
+				return fmt.Sprintf("fragment F%d on Obj { a: o { ...F%d } b: o { ...F%d } }", i, i+1, i+1)
+			}, "{ x }")
 		}, quick: []int{5, 10, 20, 40, 80}, thorough: []int{5, 10, 20, 40, 80, 160, 320}},
 	{name: "merge-inline-overlap-nest", about: "the overlapping field reached once directly and once through an inline fragment, fragment spread twice at the root",
 		gen: func(n int) string {
-			return chain(n, "{ obj { ...F1 ...F1 } }", func(i int) string { return fmt.Sprintf("fragment F%d on Obj { o { ...F%d } ... on Obj { o { ...F%d } } }", i, i+1, i+1) }, "{ x }")
+			return chain(n, "{ obj { ...F1 ...F1 } }", func(i int) string {
+				return fmt.Sprintf("fragment F%d on Obj { o { ...F%d } ... on Obj { o { ...F%d } } }", i, i+1, i+1)
+			}, "{ x }")
 		}, quick: []int{5, 10, 20, 40}, thorough: []int{5, 10, 20, 40, 80, 160}},
 	{name: "merge-cyclic-overlap", about: "fragment cycle with an overlapping pair (fatal stack overflow before the C04 memo fix)",
 		gen: func(n int) string {
@@ -141,7 +149,9 @@ var families = []family{
 		gen:   func(n int) string { return "{ " + rep(n, func(int) string { return "x " }) + "}" },
 		quick: []int{50, 100, 200, 400}, thorough: []int{50, 100, 200, 400, 800}, cost: true},
 	{name: "wide-distinct-fields", about: "n differently aliased fields in one selection set",
-		gen:   func(n int) string { return "{ " + rep(n, func(i int) string { return fmt.Sprintf("a%d: x ", i) }) + "}" },
+		gen: func(n int) string {
+			return "{ " + rep(n, func(i int) string { return fmt.Sprintf("a%d: x ", i) }) + "}"
+		},
 		quick: []int{100, 1000, 4000}, thorough: []int{100, 1000, 4000, 16000, 64000}, cost: true},
 	{name: "wide-arguments-and-items", about: "one field with a list literal of n items and n object fields",
 		gen: func(n int) string {
@@ -247,12 +257,16 @@ var flatFamilies = []flatFamily{
 	{"flat-fields-with-subselection", func(w int) string { return "{" + strings.Repeat(" o { x }", w) + " }" }},
 	{"flat-spreads", func(w int) string { return "{" + strings.Repeat(" ...F", w) + " } fragment F on Query { x }" }},
 	{"flat-inline-fragments", func(w int) string { return "{" + strings.Repeat(" ... on Query { x } ... { x }", w) + " }" }},
-	{"flat-arguments", func(w int) string { return "{ f(" + rep(w, func(i int) string { return fmt.Sprintf("a%d: 1 ", i) }) + ") }" }},
+	{"flat-arguments", func(w int) string {
+		return "{ f(" + rep(w, func(i int) string { return fmt.Sprintf("a%d: 1 ", i) }) + ") }"
+	}},
 	{"flat-directives", func(w int) string { return "{ x" + strings.Repeat(" @d(a: 1)", w) + " }" }},
 	{"flat-list-items", func(w int) string {
 		return "{ f(l: [" + strings.Repeat("1 2.5 \"s\" true null E $v [] {} ", w/8+1) + "]) }"
 	}},
-	{"flat-object-fields", func(w int) string { return "{ f(in: {" + rep(w, func(i int) string { return fmt.Sprintf("a%d: [1] ", i) }) + "}) }" }},
+	{"flat-object-fields", func(w int) string {
+		return "{ f(in: {" + rep(w, func(i int) string { return fmt.Sprintf("a%d: [1] ", i) }) + "}) }"
+	}},
 	{"flat-variable-definitions", func(w int) string {
 		return "query(" + rep(w, func(i int) string { return fmt.Sprintf("$v%d: [Int!]! = [1] $w%d: T ", i, i) }) + ") { x }"
 	}},
@@ -276,7 +290,9 @@ var deepFamilies = []deepFamily{
 	{"deep-list-values", func(d int) string { return "{f(l:" + strings.Repeat("[", d) + strings.Repeat("]", d) + ")}" }},
 	{"deep-object-values", func(d int) string { return "{f(in:" + strings.Repeat("{a:", d) + "1" + strings.Repeat("}", d) + ")}" }},
 	{"deep-mixed-values", func(d int) string { return "{f(in:" + strings.Repeat("[{a:", d) + "1" + strings.Repeat("}]", d) + ")}" }},
-	{"deep-list-types", func(d int) string { return "query($v:" + strings.Repeat("[", d) + "T" + strings.Repeat("]", d) + "){x}" }},
+	{"deep-list-types", func(d int) string {
+		return "query($v:" + strings.Repeat("[", d) + "T" + strings.Repeat("]", d) + "){x}"
+	}},
 	{"deep-default-values", func(d int) string { return "query($v:T=" + strings.Repeat("[", d) + strings.Repeat("]", d) + "){x}" }},
 	{"deep-directive-argument", func(d int) string { return "{x @d(a:" + strings.Repeat("[", d) + strings.Repeat("]", d) + ")}" }},
 }
@@ -294,13 +310,17 @@ var sibKinds = []sibKind{
 	{"named-spreads", func(n int, nest string) string {
 		return "{" + strings.Repeat(" ...F", n) + " " + nest + " } fragment F on Query { x }"
 	}},
-	{"inline-fragments", func(n int, nest string) string { return "{" + strings.Repeat(" ... { x } ... on Query { x }", n/2) + " " + nest + " }" }},
+	{"inline-fragments", func(n int, nest string) string {
+		return "{" + strings.Repeat(" ... { x } ... on Query { x }", n/2) + " " + nest + " }"
+	}},
 	{"fields", func(n int, nest string) string { return "{" + strings.Repeat(" x", n) + " " + nest + " }" }},
 	{"fields-with-subselection", func(n int, nest string) string { return "{" + strings.Repeat(" o { x }", n) + " " + nest + " }" }},
 	{"arguments", func(n int, nest string) string {
 		return "{ f(" + rep(n, func(i int) string { return fmt.Sprintf("a%d: 1 ", i) }) + ") " + nest + " }"
 	}},
-	{"list-items", func(n int, nest string) string { return "{ f(l: [" + strings.Repeat("1 $v [] {} ", n/4+1) + "]) " + nest + " }" }},
+	{"list-items", func(n int, nest string) string {
+		return "{ f(l: [" + strings.Repeat("1 $v [] {} ", n/4+1) + "]) " + nest + " }"
+	}},
 	{"object-fields", func(n int, nest string) string {
 		return "{ f(in: {" + rep(n, func(i int) string { return fmt.Sprintf("k%d: 1 ", i) }) + "}) " + nest + " }"
 	}},
